@@ -12,9 +12,9 @@ open AL AL.Ast AL.Sema AL.RuleExpr
 /-- what a job shows to the jobs that need it -/
 def jobView (j : Job) : Bool × Ty := (j.workflowCall.isNone, declaredOutputsTy j)
 
-theorem needsTy_congr (lower : String → String) (jobs jobs' : List (String × Job)) (n : Job)
+theorem needsTy_congr (outs : List (String × Ty)) (lower : String → String) (jobs jobs' : List (String × Job)) (n : Job)
     (h : ∀ id ∈ n.needs.getD [], (lookupJob (lower id.value) jobs).map jobView = (lookupJob (lower id.value) jobs').map jobView) :
-    needsTy lower jobs n = needsTy lower jobs' n := by
+    needsTy outs lower jobs n = needsTy outs lower jobs' n := by
   simp only [needsTy]
   congr 1
   generalize n.needs.getD [] = needs at h
@@ -26,7 +26,7 @@ theorem needsTy_congr (lower : String → String) (jobs jobs' : List (String × 
         else match lookupJob i jobs with
           | none => ps
           | some j =>
-            let outs := if j.workflowCall.isNone then declaredOutputsTy j else mapOfString
+            let outs := if j.workflowCall.isNone then declaredOutputsTy j else (Ty.lookup i outs).getD mapOfString
             Ty.setProp i (.obj [("outputs", outs), ("result", .string)] none) ps) acc =
       needs.foldl (fun ps id =>
         let i := lower id.value
@@ -35,7 +35,7 @@ theorem needsTy_congr (lower : String → String) (jobs jobs' : List (String × 
         else match lookupJob i jobs' with
           | none => ps
           | some j =>
-            let outs := if j.workflowCall.isNone then declaredOutputsTy j else mapOfString
+            let outs := if j.workflowCall.isNone then declaredOutputsTy j else (Ty.lookup i outs).getD mapOfString
             Ty.setProp i (.obj [("outputs", outs), ("result", .string)] none) ps) acc from H []
   induction needs with
   | nil => intro acc; rfl
@@ -49,7 +49,7 @@ theorem needsTy_congr (lower : String → String) (jobs jobs' : List (String × 
         else match lookupJob i jobs with
           | none => acc
           | some j =>
-            let outs := if j.workflowCall.isNone then declaredOutputsTy j else mapOfString
+            let outs := if j.workflowCall.isNone then declaredOutputsTy j else (Ty.lookup i outs).getD mapOfString
             Ty.setProp i (.obj [("outputs", outs), ("result", .string)] none) acc) =
         (let i := lower id.value
         if i = n.id.value then acc
@@ -57,7 +57,7 @@ theorem needsTy_congr (lower : String → String) (jobs jobs' : List (String × 
         else match lookupJob i jobs' with
           | none => acc
           | some j =>
-            let outs := if j.workflowCall.isNone then declaredOutputsTy j else mapOfString
+            let outs := if j.workflowCall.isNone then declaredOutputsTy j else (Ty.lookup i outs).getD mapOfString
             Ty.setProp i (.obj [("outputs", outs), ("result", .string)] none) acc) := by
       simp only
       split
@@ -74,7 +74,7 @@ theorem needsTy_congr (lower : String → String) (jobs jobs' : List (String × 
 theorem job_depends_on_needed_only (cx : Cx) (isNum : IsNumber) (jobs jobs' : List (String × Job)) (n : Job)
     (h : ∀ id ∈ n.needs.getD [], (lookupJob (cx.lower id.value) jobs).map jobView = (lookupJob (cx.lower id.value) jobs').map jobView) :
     visitJob cx isNum jobs n = visitJob cx isNum jobs' n := by
-  simp only [visitJob, needsTy_congr cx.lower jobs jobs' n h]
+  simp only [visitJob, needsTy_congr _ cx.lower jobs jobs' n h]
 
 /-- a job without `needs:` is checked the same in every workflow with the same header -/
 theorem job_without_needs_alone (cx : Cx) (isNum : IsNumber) (jobs jobs' : List (String × Job)) (n : Job)
